@@ -11,34 +11,21 @@ Import ListNotations.
 Local Open Scope fld_scope.
 
 (* ================================================================ 1. fresh transforms are the identity *)
-(* FULL STATEMENT (false of the unchanged tree, see the _refuted theorems):
-     forall c D, In D (gen_fresh_dims c) -> fresh_identity c D.
-   Missing from the partial theorem: HomogeneousTransform (parameters reset to all zeros), QuaternionRotation and
-   RigidQuaternionTransform (default quaternion [0,0,0,1] in (w,x,y,z) order = half turn about z). *)
-Theorem C06_fresh_is_identity_partial :
+(* every linear class found in spatial/linear.py (12 classes: elementary and sequential composites), every dimension
+   the class admits: tensor() right after construction maps every point to itself *)
+Theorem C06_fresh_is_identity :
   forall (K : fld), is_field K ->
-  forall (c : lclass) (D : nat),
-  c <> LHomogeneousTransform -> c <> LQuaternionRotation -> c <> LRigidQuaternionTransform ->
-  In D (gen_fresh_dims c) ->
+  forall (c : lclass) (D : nat), In D (gen_fresh_dims c) ->
   forall x : nat -> K, form_apply D (gen_fresh_form c) (gen_fresh c D) (vtab D x) = vtab D x.
-Proof. exact fresh_is_identity_but3. Qed.
-Print Assumptions C06_fresh_is_identity_partial.
+Proof. exact fresh_is_identity. Qed.
+Print Assumptions C06_fresh_is_identity.
 
-Theorem C06_fresh_is_identity_refuted_quaternion :
-  forall (K : fld), is_field K -> char0 K ->
-  ~ fresh_identity (K:=K) LQuaternionRotation 3 /\ ~ fresh_identity (K:=K) LRigidQuaternionTransform 3.
-Proof. exact fresh_quaternion_refuted. Qed.
-Print Assumptions C06_fresh_is_identity_refuted_quaternion.
-
-Theorem C06_fresh_is_identity_refuted_homogeneous :
-  forall (K : fld), is_field K -> char0 K ->
-  forall D : nat, D = 2%nat \/ D = 3%nat -> ~ fresh_identity (K:=K) LHomogeneousTransform D.
-Proof. intros K Kf _. exact (fresh_homogeneous_refuted K Kf). Qed.
-Print Assumptions C06_fresh_is_identity_refuted_homogeneous.
+Theorem C06_fresh_classes_cover : forall c : lclass, In c all_lclass /\ In 3%nat (gen_fresh_dims c).
+Proof. exact fresh_dims_cover. Qed.
+Print Assumptions C06_fresh_classes_cover.
 
 (* the fresh tensors are the parameter -> matrix maps (Gen/LinInv.v, traced tensor() bodies) at the default
-   literals, re-parameterisations evaluated; the quaternion that WOULD be the identity is (1,0,0,0); the fresh one
-   is the half turn about z; every non-rigid class resets its parameters to 0 *)
+   literals, re-parameterisations evaluated *)
 Theorem C06_fresh_tensor_of_defaults :
   forall (K : fld), is_field K ->
   gen_fresh (K:=K) LTranslation 2 = gen_translation2_fwd 0 0 /\
@@ -51,21 +38,22 @@ Theorem C06_fresh_tensor_of_defaults :
   gen_fresh (K:=K) LAnisotropicScaling 3 = gen_anisoscale3_fwd 1 1 1 /\
   gen_fresh (K:=K) LShearing 2 = gen_shear2_fwd 0 /\
   gen_fresh (K:=K) LShearing 3 = gen_shear3_fwd 0 0 0 /\
-  gen_fresh (K:=K) LHomogeneousTransform 2 = gen_homogeneous2_fwd 0 0 0 0 0 0 /\
-  gen_fresh (K:=K) LHomogeneousTransform 3 = gen_homogeneous3_fwd 0 0 0 0 0 0 0 0 0 0 0 0 /\
-  gen_fresh (K:=K) LQuaternionRotation 3 = gen_quaternion_fwd 1 0 0 0 1.
+  gen_fresh (K:=K) LHomogeneousTransform 2 = gen_homogeneous2_fwd 1 0 0 0 1 0 /\
+  gen_fresh (K:=K) LHomogeneousTransform 3 = gen_homogeneous3_fwd 1 0 0 0 0 1 0 0 0 0 1 0 /\
+  gen_fresh (K:=K) LQuaternionRotation 3 = gen_quaternion_fwd 1 1 0 0 0.
 Proof. exact fresh_is_tensor_of_defaults. Qed.
 Print Assumptions C06_fresh_tensor_of_defaults.
 
-Theorem C06_quaternion_default_should_be_wxyz_1000 :
+(* the default quaternion is (w, x, y, z) = (1, 0, 0, 0) = the identity; (0, 0, 0, 1) would be the half turn about z;
+   every non-rigid class resets its parameters to 0 *)
+Theorem C06_quaternion_default_is_identity_wxyz :
   forall (K : fld), is_field K ->
-  gen_quaternion_fwd (K:=K) 1 1 0 0 0 = eye 3 /\ gen_fresh (K:=K) LQuaternionRotation 3 = rot AZ (- (1)) 0 /\
-  gen_default (K:=K) LQuaternionRotation 3 = [0; 0; 0; 1] /\ gen_nonrigid_defaults_zero = true.
-Proof.
-  intros K Kf. exact (conj (quaternion_wxyz_identity K Kf) (conj (fresh_quaternion_is_halfturn K Kf)
-     (conj (proj1 (default_literals K)) (proj2 (proj2 (proj2 (proj2 (proj2 (proj2 (proj2 (proj2 (default_literals K)))))))))))).
-Qed.
-Print Assumptions C06_quaternion_default_should_be_wxyz_1000.
+  (gen_default (K:=K) LQuaternionRotation 3 = [1; 0; 0; 0] /\
+   gen_quaternion_fwd (K:=K) 1 1 0 0 0 = eye 3 /\
+   gen_fresh (K:=K) LQuaternionRotation 3 = eye 3 /\
+   gen_quaternion_fwd (K:=K) 1 0 0 0 1 = rot AZ (- (1)) 0) /\ gen_nonrigid_defaults_zero = true.
+Proof. intros K Kf. exact (conj (quaternion_default_is_identity K Kf) eq_refl). Qed.
+Print Assumptions C06_quaternion_default_is_identity_wxyz.
 
 (* a zero displacement field (fresh non-rigid models, T := x + interpolated field) is the identity, any size *)
 Theorem C06_fresh_field_is_identity :
@@ -158,6 +146,22 @@ Theorem C06_views_agree_nonrigid_affine2 :
 Proof. exact warp_points2_affine_field. Qed.
 Print Assumptions C06_views_agree_nonrigid_affine2.
 
+Theorem C06_views_agree_nonrigid_affine3 :
+  forall (K : fld), is_field K -> forall (floorK : K -> Z) (ac : bool) (ux uy uz : list (list (list K))) (x y z : K)
+    (a0 a1 a2 : K * K * K * K),
+  let P (u : list (list (list K))) := (unnorm ac (zlen (hd [] (hd [] u))) x, unnorm ac (zlen (hd [] u)) y, unnorm ac (zlen u) z) in
+  let ramp (u : list (list (list K))) (a : K * K * K * K) :=
+    let '(px, py, pz) := P u in let '(ax, ay, az, b) := a in
+    forall dx dy dz : Z, (dx = 0 \/ dx = 1)%Z -> (dy = 0 \/ dy = 1)%Z -> (dz = 0 \/ dz = 1)%Z ->
+     getp PBorder 0 (getp PBorder [] (getp PBorder [] u (floorK pz + dz)) (floorK py + dy)) (floorK px + dx)
+     = ax * (of_Z (floorK px) + of_Z dx) + ay * (of_Z (floorK py) + of_Z dy) + az * (of_Z (floorK pz) + of_Z dz) + b in
+  let val (u : list (list (list K))) (a : K * K * K * K) :=
+    let '(px, py, pz) := P u in let '(ax, ay, az, b) := a in ax * px + ay * py + az * pz + b in
+  ramp ux a0 -> ramp uy a1 -> ramp uz a2 ->
+  warp_points3 floorK ac ux uy uz [x; y; z] = [x + val ux a0; y + val uy a1; z + val uz a2].
+Proof. exact warp_points3_affine_field. Qed.
+Print Assumptions C06_views_agree_nonrigid_affine3.
+
 Theorem C06_resize_is_interpolation_on_lattice :
   forall (K : fld), is_field K -> char0 K -> forall (floorK : K -> Z) (ac : bool) (u : list K) (m : Z),
   of_Z (K:=K) m <> 0 -> of_Z (K:=K) m - 1 <> 0 -> (m =? 1)%Z = false ->
@@ -194,19 +198,19 @@ Theorem C06_sequential_generic_order :
 Proof. exact seq_forward2_order. Qed.
 Print Assumptions C06_sequential_generic_order.
 
-(* MultiLevelTransform.  FULL STATEMENT: for every member list, the composite maps x to x + sum_i (T_i(x) - x).
-   Proved: the generic branch for ANY number of members; the linear branch for at most one member.
-   Missing (false of the unchanged tree): two or more linear members -- the code adds homogeneous matrices, i.e.
-   maps x to sum_i T_i(x) (next theorem), and accumulates into the first member's tensor. *)
-Theorem C06_multilevel_sum_partial :
+(* MultiLevelTransform: for EVERY member list the composite maps x to x + sum_i (T_i(x) - x):
+   generic branch (a non-rigid member is present): the accumulation loop, any number of members;
+   linear branch: tensor() = sum of the members' homogeneous matrices - (k - 1) I, any number of members of any forms *)
+Theorem C06_multilevel_sum :
   forall (K : fld), is_field K ->
   (forall (x : list K) (ys : list (list K)), Forall (fun y => length y = length x) ys ->
      ml_forward x ys = vadd x (vsum_list (length x) (map (fun y => vsub y x) ys))) /\
   (forall D : nat, D = 2%nat \/ D = 3%nat -> forall (ms : list (member (K:=K))) (X : list K),
-     (length ms <= 1)%nat -> Forall (m_ok D) ms -> length X = D ->
-     happly D (ml_tensor D ms) X = ml_spec_linear D ms X).
-Proof. intros K Kf. exact (conj (multilevel_sum_generic K Kf) (multilevel_sum_linear_le1 K Kf)). Qed.
-Print Assumptions C06_multilevel_sum_partial.
+     Forall (m_ok D) ms -> length X = D ->
+     happly D (ml_tensor D ms) X
+     = vadd X (vsum_list (length X) (map (fun y => vsub y X) (map (fun m => form_apply D (fst m) (snd m) X) ms)))).
+Proof. intros K Kf. exact (conj (multilevel_sum_generic K Kf) (multilevel_sum_linear K Kf)). Qed.
+Print Assumptions C06_multilevel_sum.
 
 Theorem C06_multilevel_generic_loop_is_traced :
   forall (K : fld), is_field K -> forall x y0 y1 y2 : nat -> K,
@@ -219,26 +223,23 @@ Theorem C06_multilevel_generic_loop_is_traced :
 Proof. exact ml_forward_traced. Qed.
 Print Assumptions C06_multilevel_generic_loop_is_traced.
 
-Theorem C06_multilevel_linear_is_sum_of_images :
+(* the traced tensor() of two members (all 9 form pairs) and of three homogeneous members is the model ml_tensor *)
+Theorem C06_multilevel_linear_is_traced :
   forall (K : fld), is_field K ->
-  forall D : nat, D = 2%nat \/ D = 3%nat ->
-  forall (m : member (K:=K)) (r : list member) (X : list K),
-  m_ok D m -> Forall (m_ok D) r -> length X = D ->
-  happly D (ml_tensor D (m :: r)) X = fold_left (fun v m' => vadd v (m_apply D m' X)) r (m_apply D m X).
-Proof. exact multilevel_linear_is_sum_of_images. Qed.
-Print Assumptions C06_multilevel_linear_is_sum_of_images.
+  (forall D : nat, D = 2%nat \/ D = 3%nat -> forall (fa fb : form) (a b : nat -> nat -> K),
+     gen_ml2 D fa fb (tab D (fcols D fa) a) (tab D (fcols D fb) b)
+     = ml_tensor D [(fa, tab D (fcols D fa) a); (fb, tab D (fcols D fb) b)]) /\
+  (forall a b c : nat -> nat -> K,
+     gen_ml3_HHH_2 (tab 2 3 a) (tab 2 3 b) (tab 2 3 c) = ml_tensor 2 [(FH, tab 2 3 a); (FH, tab 2 3 b); (FH, tab 2 3 c)] /\
+     gen_ml3_HHH_3 (tab 3 4 a) (tab 3 4 b) (tab 3 4 c) = ml_tensor 3 [(FH, tab 3 4 a); (FH, tab 3 4 b); (FH, tab 3 4 c)]).
+Proof. intros K Kf. exact (conj (ml2_is_model K Kf) (ml3_is_model K Kf)). Qed.
+Print Assumptions C06_multilevel_linear_is_traced.
 
-Theorem C06_multilevel_sum_refuted :
-  exists (ms : list (member (K:=QcF))) (X : list Qc),
-    Forall (m_ok 2) ms /\ length X = 2%nat /\
-    happly 2 (ml_tensor 2 ms) X <> ml_spec_linear 2 ms X /\
-    happly 2 (ml_tensor 2 ms) X = vscale (K:=QcF) (q 2 1) X /\ ml_spec_linear 2 ms X = X.
-Proof. exact multilevel_sum_refuted. Qed.
-Print Assumptions C06_multilevel_sum_refuted.
-
-Theorem C06_multilevel_overwrites_first_member_refuted : gen_ml_overwrites_first FH = true.
-Proof. exact multilevel_overwrites_first_member. Qed.
-Print Assumptions C06_multilevel_overwrites_first_member_refuted.
+(* evaluating the composite does not write into any member's tensor (observed on the trace for every form of the
+   first member; later members are checked by the translator unit) *)
+Theorem C06_multilevel_members_unchanged : forall fa : form, gen_ml_overwrites_first fa = false.
+Proof. exact ml_members_unchanged. Qed.
+Print Assumptions C06_multilevel_members_unchanged.
 
 (* ================================================================ 4. warping is the pull-back *)
 (* ImageTransformer(transform, target, source)(image) at target sample j, for a linear transform on ANY transform
@@ -298,5 +299,6 @@ Example C06_nonvacuous :
   meqb (mm (K:=QcF) 2 (mT 2 (gD 2 ex_grid)) (gD 2 ex_grid)) (eye (K:=QcF) 2) = true /\
   meqb (mm (K:=QcF) 2 (gD 2 ex_grid) (mT 2 (gD 2 ex_grid))) (eye (K:=QcF) 2) = true /\
   veqb (world_map (K:=QcF) 2 FH [[q 3 5; q (-4) 5; q 1 4]; [q 4 5; q 3 5; q 0 1]] false ex_grid [q 1 1; q 2 1]) [q 1 1; q 2 1] = false /\
-  veqb (m_apply (K:=QcF) 2 (seq_tensor 2 ex_members) [q 1 1; q 1 1]) [q 4 1; q 2 1] = true.
+  veqb (m_apply (K:=QcF) 2 (seq_tensor 2 ex_members) [q 1 1; q 1 1]) [q 4 1; q 2 1] = true /\
+  veqb (happly (K:=QcF) 2 (ml_tensor 2 ex_members) [q 1 1; q 1 1]) [q 7 2; q 2 1] = true.
 Proof. vm_compute. repeat split. Qed.
